@@ -128,3 +128,58 @@ Definition gresp_reader_ok (t : list (string * string)) (v : string) : bool :=
   | Some r, Some b => String.eqb r b
   | _, _ => false
   end.
+
+(* ---------- round 6: Login plugins, handshake deadline ---------- *)
+(* (5) Manager.Login: (token, left side, right side) of every assignment to the login content inside the loop, the
+   condition that guards it, and what the function returns at its end *)
+Definition glogin_ok (assigns : list (string * string * string)) (guards finals : list string) : bool :=
+  match assigns, guards, finals with
+  | [(tok, l, r)], [g], [f] =>
+      (* a plain assignment to the function's own variable: ":=" would declare a new one inside the block *)
+      String.eqb tok "=" && String.eqb l "content" && String.eqb r "retContent.(*LoginContent)" &&
+      String.eqb g "!res.Unchange" && String.eqb f "content"
+  | _, _, _ => false
+  end.
+
+(* (6) handshake events as the translator names them *)
+Definition ghs_event (s : string) : option hs_ev :=
+  if String.eqb s "arm" then Some HArm else if String.eqb s "clear" then Some HClear
+  else if String.eqb s "defer-arm" then Some HDeferArm else if String.eqb s "defer-clear" then Some HDeferClear
+  else if String.eqb s "read" then Some HReadResp else if String.eqb s "join" then Some HJoin else None.
+
+Fixpoint ghs_events (l : list string) : option (list hs_ev) :=
+  match l with
+  | [] => Some []
+  | s :: r => match ghs_event s, ghs_events r with Some e, Some es => Some (e :: es) | _, _ => None end
+  end.
+
+(* one plugin's effect on the current user, and the chain *)
+Definition plugin_step (cur : bytes) (a : plugin_ans) : option bytes :=
+  match a with PReject => None | PUnchanged => Some cur | PRewrite u => Some u end.
+
+Fixpoint plugin_chain (step : bytes -> plugin_ans -> option bytes) (cur : bytes) (answers : list plugin_ans) : option bytes :=
+  match answers with
+  | [] => Some cur
+  | a :: r => match step cur a with Some c => plugin_chain step c r | None => None end
+  end.
+
+(* what today's Manager.Login does with one plugin answer: known only when the source has the recognised shape *)
+Definition glogin_step (assigns : list (string * string * string)) (guards finals : list string)
+  : option (bytes -> plugin_ans -> option bytes) :=
+  if glogin_ok assigns guards finals then Some plugin_step else None.
+
+Definition ghandshake_ok (evs : list string) : bool :=
+  match ghs_events evs with
+  | Some es =>
+      match hs_armed_at HReadResp false es, hs_armed_at HJoin false es with
+      | Some true, Some false => true
+      | _, _ => false
+      end
+  | None => false
+  end.
+
+(* the secret key travels unchanged as well (same stages as the allowed users) *)
+Definition gsk_stage_ok (rhs : string) : bool :=
+  String.eqb rhs "v.Sk" || String.eqb rhs "c.Secretkey" || String.eqb rhs "m.Sk".
+Definition gsk_plumbing_ok (t : list (string * string * string)) : bool :=
+  Nat.eqb (length t) 9 && forallb (fun e : string * string * string => gsk_stage_ok (snd e)) t.
